@@ -116,6 +116,17 @@ CHECKS.update({
          "after snapshot loads) and BorderTrace judges each completed 320x240 buffer row by row plus the reported border colour."),
    note="Trusted: TLC, the clock hook, the assumption that an OUT's write lands inside its I/O cycle. Sampling over write plans."),
 })
+CHECKS.update({
+ "C13": dict(
+   category="model_checking", design_ref="4 (C13/C14)", technique="TLC exhaustive encode/decode round trip on tiny pages + TLC validation of real save/load round trips against the TLA+ SNA format",
+   text=("Snapshot.tla defines the 48K and 128K SNA layouts byte by byte (SnaByte) and their decoding; MC_Snapshot checks decode(encode(d)) = d for every "
+         "carried field on 2-byte pages over every latch value and every stack position, and that a file of the other model decodes to an error. On the "
+         "real emulator random machine states are saved; the file is compared with SnaByte at header, boundary, overridden and random positions (and "
+         "byte-for-byte with an independent writer), the running machine's registers and whole RAM are compared before/after the save, and the file is "
+         "loaded into the same emulator later, a fresh one and halted / mid-prefix / EI-shadow / paging-locked / other-border ones, with every "
+         "register the format carries, border, latch+lock, all RAM and the non-inheritance of halt/prefix/EI judged."),
+   note="Trusted: TLC, the RAM-bank read hook, the harness' independent SNA writer. Sampling over machine states."),
+})
 NOT_YET = {}
 
 HOOK_COMMITS = ["71990aa"]
